@@ -97,6 +97,36 @@ fn main() {
         if line.trim().is_empty() {
             continue;
         }
+        if let Some(rest) = line.strip_prefix("bytes\t") {
+            // which single bytes does the pattern (byte-oriented: Unicode mode off, invalid UTF-8 allowed) accept as a
+            // complete one-byte haystack: read off the automaton, one transition + the end-of-input transition per byte
+            use regex_automata::dfa::{dense, Automaton, StartKind};
+            use regex_automata::util::{start, syntax};
+            use regex_automata::{Anchored, MatchKind};
+            let pat = unjson(rest);
+            let built = dense::Builder::new()
+                .configure(dense::Config::new().start_kind(StartKind::Anchored).match_kind(MatchKind::All))
+                .syntax(syntax::Config::new().unicode(false).utf8(false))
+                .thompson(regex_automata::nfa::thompson::Config::new().utf8(false))
+                .build(&format!("(?:{})$", pat));
+            match built {
+                Err(e) => println!("err {}", e.to_string().replace('\n', " ")),
+                Ok(dfa) => match dfa.start_state(&start::Config::new().anchored(Anchored::Yes)) {
+                    Err(e) => println!("err {}", e),
+                    Ok(s0) => {
+                        let mut out = String::new();
+                        for b in 0..=255u8 {
+                            let s1 = dfa.next_state(s0, b);
+                            if dfa.is_match_state(dfa.next_eoi_state(s1)) {
+                                out.push_str(&format!("{:02x}", b));
+                            }
+                        }
+                        println!("bytes {}", out);
+                    }
+                },
+            }
+            continue;
+        }
         if let Some(rest) = line.strip_prefix("equiv\t") {
             let mut it = rest.split('\t');
             let (a, b) = (unjson(it.next().unwrap_or("\"\"")), unjson(it.next().unwrap_or("\"\"")));
